@@ -257,7 +257,7 @@ def conditions(tier):
 
 
 META = {
-    "bounds": {"quick": "the whole product of 8 flag bits x source (CLI / env / defaults of 4 pyproject files / shortcut) x terminal x 16 review answers; deactivation: 12 CI variables x PYCHARM_HOSTED x 3 xdist settings x xfail; fixed two-file program with one pending change per category and one external",
+    "bounds": {"quick": "the whole product of 8 flag bits x source (CLI / env / defaults of 4 pyproject files / shortcut) x terminal x 16 review answers; deactivation: 12 CI variables x PYCHARM_HOSTED x 3 xdist settings (+ the config of an xdist worker) x xfail mark {none, on the function, inherited from class/module, xfail(False)}; fixed two-file program with one pending change per category and one external",
                "thorough": "same (the space is covered completely in both tiers)"},
     "outside": "unknown flag names (only the 8 documented flags are bits), pytest's own option parsing, pypy / non-cpython, the values in the test program (concrete here; C05 quantifies them)",
     "assumptions": ["rich Console / Confirm.ask replaced by scripted stubs; Console.is_terminal is the symbolic `tty`",
